@@ -9,7 +9,7 @@ CONSTANTS
  DefT = 30
  KeepT = {TRUE}
  MaxClock = 2
- MaxGen = 2
+ MaxGen = 3
  FixSubChange = TRUE
  FixHbRefresh = TRUE
  DevHbNoGen = FALSE
@@ -23,7 +23,7 @@ CONSTANTS
  DevNoLaggerDrop = FALSE
  DevNoExpire = FALSE
 INIT Init
-NEXT NextCore
+NEXT Next
 PROPERTIES AllC
 INVARIANTS StoreInSync LeaderIsMember AsgOnlyStable HbIsAlive
 CONSTRAINT GenBound
